@@ -71,6 +71,8 @@ def c18(ctx):
         for k in ("executions", "accepted", "events"):
             tot[k] += getattr(st, k)
         tot["devlog"] += st.devlog
+        if st.samples and len(tot.setdefault("samples", [])) < 2:
+            tot["samples"].append(st.samples[0][:8])
         for k2, v2 in st.okcount.items():
             c2 = tot["calls"].setdefault(k2, [0, 0])
             c2[0] += v2[0]
@@ -122,7 +124,7 @@ def c18(ctx):
         controlled=dict(program_combinations=[c[0] + ("/full" if c[3] else "") for c in combos], max_preemptions=[c[1] for c in combos],
                         schedules_in_model=tot["paths_total"], schedules_run=tot["schedules"], accepted=tot["accepted"],
                         scheduling_points_per_thread=tot["lock_points"], calls_ok_failed=tot["calls"]),
-        free_running=free, deviation_confirmed=confirmed,
+        free_running=free, deviation_confirmed=confirmed, samples=tot.get("samples") or [["no execution"]],
         exhaustive=(tot["paths_total"] == tot["schedules"]),
         rule="C_Initialize gets the four mutex callbacks; the callbacks ARE the scheduler (one thread runs at a time, a "
              "switch is possible before every LockMutex and at every call boundary). A calibration run records each "
